@@ -5,6 +5,13 @@ from . import common as C
 
 def observe(spec, inputs):
     n = C.ns()
+    for sb in spec.get("before", []):
+        try:
+            sm = plspec.build(n, sb, {})
+            sm.to_ge_polyhedron(active=True)
+            sm.to_ge_polyhedron(active=False)
+        except Exception:   # noqa
+            pass
     m = plspec.build(n, spec["model"], {})
     m1 = plspec.build(n, spec["model"], {})
     out = {"error": None, "topid": m.id}
